@@ -251,11 +251,12 @@ def main():
             thorough_extra['sanitizer'] = {'build_failed': e.detail[-300:]}
 
     if cases and st.get('cxx_exe') and cxx_results is not None and not os.environ.get('VERIF_NO_NDEBUG'):
-        # the build configuration as an input: the same sample of cases through a driver compiled with -DNDEBUG (release builds switch
-        # assertions off) must give the observations of the ordinary build, bit for bit
+        # the build configuration as an input: the same sample of cases through a driver compiled the way releases are (-O2 -DNDEBUG:
+        # assertions off, more inlining and reordering, still without contraction or fast-math) must give the observations of the
+        # ordinary build, bit for bit
         try:
             t1 = time.time()
-            nd = tie.cxx_build('-DNDEBUG' + (' -DVERIF_MPI' if use_mpi else ''), 'ndebug-mpi' if use_mpi else 'ndebug')
+            nd = tie.cxx_build('-O2 -DNDEBUG' + (' -DVERIF_MPI' if use_mpi else ''), 'release-mpi' if use_mpi else 'release')
             env = dict(os.environ); env['VERIF_TMP'] = os.path.join(BUILD, 'tmp')
             ref = {r['case'][0]: r for r in cxx_results}
             nd_cases = [c_ for c_ in cases if c_[0] in ref and not textcmp.has_ub(ref[c_[0]]['model']) and not (isinstance(ref[c_[0]]['cxx'], list) and ref[c_[0]]['cxx'] and ref[c_[0]]['cxx'][0] in ('crash', 'exception'))]
@@ -273,7 +274,7 @@ def main():
             thorough_extra['ndebug_build'] = {'cases': len(nd_cases), 'differing': len(nd_bad), 'wall_s': round(time.time() - t1, 1)}
             for c_, got in nd_bad[:3]:
                 d = textcmp.compare(got, ref[c_[0]]['cxx'], FMTS.get(c_[1], FMTS['d'])) if isinstance(got, list) else [str(got)[:200]]
-                sanitizer_viol.append({'what': 'compiled with -DNDEBUG the library behaves differently on this input (NDEBUG build vs ordinary build): %s' % (d[:3],),
+                sanitizer_viol.append({'what': 'compiled as a release (-O2 -DNDEBUG) the library behaves differently on this input (release build vs ordinary build): %s' % (d[:3],),
                                        'cases': [dump(list(c_[:4]) + [[]])], 'observed': dump(got)[:400] if isinstance(got, list) else str(got)[:400]})
         except Stage as e:
             thorough_extra['ndebug_build'] = {'build_failed': e.detail[-300:]}
